@@ -475,7 +475,8 @@ fn big_list_cases(tier: &str) -> Vec<Case> {
                     crate::model::DObj(vec![("h".to_string(), crate::model::DocVal::Str(text))])
                 })
                 .chain(std::iter::once(crate::model::DObj::default()))
-                .chain([needle(0), format!("{}z", needle(0)), format!("z{}", needle(0)), needle(3), format!("{}{}", needle(3), needle(6))].into_iter().map(
+                .chain([needle(0), format!("{}z", needle(0)), format!("z{}", needle(0)), needle(3), format!("{}{}", needle(3), needle(6)),
+                    format!(" {} {} ", needle(4), needle(4)), format!(" {0} {0} {0} {1} ", needle(7), needle(9))].into_iter().map(
                     |t| crate::model::DObj(vec![("h".to_string(), crate::model::DocVal::Str(t))]),
                 ))
                 .collect();
